@@ -86,7 +86,7 @@ def run_case(seed):
         dist[k] = dist.get(k, 0) + 1
 
     payload = rng.choice(['ints', 'random', 'special', 'smallints'])
-    pf = gen.gen_plotfile(rng, max_blocks=2, payload=payload, allow_repeat=True)
+    pf = gen.gen_plotfile(rng, max_blocks=2, payload=payload, allow_repeat=True, awkward=0.3, odd0=0.25)
     warnings.simplefilter('ignore')
     # np.nanmin / np.nanmax on SIGNALLING NaNs is platform dependent (C fmin returns a quiet NaN for a
     # signalling operand and the running extremum is lost: nanmin([1, sNaN, 2]) = 2): outside the model.
